@@ -129,7 +129,9 @@ class SceneGraph:
             return self._cache[key]
 
         # get the geometry at the final node if any
-        geometry = self.transforms.node_data[frame_to].get("geometry")
+        # (`node_data` creates what it is asked for: a question about a
+        # frame that doesn't exist must not add that frame to the graph)
+        geometry = self.transforms.node_data.get(frame_to, {}).get("geometry")
 
         # get a local reference to edge data
         data = self.transforms.edge_data
